@@ -25,3 +25,87 @@ func (s *ServantProxy) VerifQueueLen() int32 { return atomic.LoadInt32(&s.queueL
 
 // VerifManager exposes the endpoint manager of a proxy.
 func (s *ServantProxy) VerifManager() EndpointManager { return s.manager }
+
+// VerifAdapters lists the adapter proxies the proxy's endpoint manager has created so far.
+func (s *ServantProxy) VerifAdapters() []*AdapterProxy {
+	var out []*AdapterProxy
+	if em, ok := s.manager.(*endpointManager); ok {
+		em.epList.Range(func(k, v interface{}) bool {
+			out = append(out, v.(*AdapterProxy))
+			return true
+		})
+	}
+	return out
+}
+
+// VerifPending is the total size of the pending-reply tables of the proxy's adapters.
+func (s *ServantProxy) VerifPending() int {
+	n := 0
+	for _, a := range s.VerifAdapters() {
+		a.resp.Range(func(k, v interface{}) bool { n++; return true })
+	}
+	return n
+}
+
+// VerifInvokeNum is the manager's counter of calls between preInvoke and postInvoke.
+func (s *ServantProxy) VerifInvokeNum() int32 {
+	if em, ok := s.manager.(*endpointManager); ok {
+		return atomic.LoadInt32(&em.invokeNum)
+	}
+	return 0
+}
+
+// VerifConnInvokeNum is the per-connection in-flight counter of an adapter's client.
+func (c *AdapterProxy) VerifConnInvokeNum() int32 { return c.tarsClient.VerifClientInvokeNum() }
+
+// VerifClientClosed reports whether the adapter's transport regards its connection as closed.
+func (c *AdapterProxy) VerifClientClosed() bool { return c.tarsClient.VerifClientClosed() }
+
+// VerifHost returns the adapter's endpoint host and port.
+func (c *AdapterProxy) VerifHost() (string, int32) { return c.point.Host, c.point.Port }
+
+// VerifStatus is the adapter's health flag (true = in rotation).
+func (c *AdapterProxy) VerifStatus() bool { return c.status }
+
+// VerifShiftClock moves the adapter's health timestamps back by d seconds, which is
+// exactly a clock advance for the health rules (all of the form now - t >= const).
+func (c *AdapterProxy) VerifShiftClock(d int64) {
+	atomic.AddInt64(&c.lastSuccessTime, -d)
+	atomic.AddInt64(&c.lastBlockTime, -d)
+	atomic.AddInt64(&c.lastCheckTime, -d)
+	atomic.AddInt64(&c.lastKeepAliveTime, -d)
+}
+
+// VerifCounters exposes the adapter's call statistics (failCount, lastFailCount, sendCount, successCount).
+func (c *AdapterProxy) VerifCounters() (int32, int32, int32, int32) {
+	return atomic.LoadInt32(&c.failCount), atomic.LoadInt32(&c.lastFailCount), atomic.LoadInt32(&c.sendCount), atomic.LoadInt32(&c.successCount)
+}
+
+// VerifCheckStatus runs one status check of the proxy's endpoint manager (what the
+// background ticker does).
+func (s *ServantProxy) VerifCheckStatus() {
+	if em, ok := s.manager.(*endpointManager); ok {
+		em.checkStatus()
+	}
+}
+
+// VerifRefresh runs one registry refresh of the proxy's endpoint manager.
+func (s *ServantProxy) VerifRefresh() error {
+	if em, ok := s.manager.(*endpointManager); ok {
+		return em.doFresh()
+	}
+	return nil
+}
+
+// VerifActiveHosts lists the hosts currently in normal rotation.
+func (s *ServantProxy) VerifActiveHosts() []string {
+	var out []string
+	if em, ok := s.manager.(*endpointManager); ok {
+		em.epLock.Lock()
+		for _, ep := range em.activeEp {
+			out = append(out, ep.Host)
+		}
+		em.epLock.Unlock()
+	}
+	return out
+}
